@@ -436,6 +436,13 @@ pub fn build(
                 .flatten())
             .unwrap_or(semantic.type_registry.pointer_size());
 
+        // The alignment ends up in `#[repr(C, align(N))]`, which only accepts powers of two.
+        if !alignment.is_power_of_two() {
+            anyhow::bail!(
+                "alignment {alignment} of type `{resolvee_path}` is not a power of two"
+            );
+        }
+
         // Calculate the minimum required alignment.
         let required_alignment = util::lcm(
             regions
